@@ -23,6 +23,7 @@ import (
 	useragent "github.com/libp2p/go-libp2p/p2p/protocol/identify/internal/user-agent"
 	"github.com/libp2p/go-libp2p/p2p/protocol/identify/pb"
 	"github.com/libp2p/go-libp2p/x/rate"
+	"github.com/libp2p/go-libp2p/x/verifhook"
 
 	logging "github.com/libp2p/go-libp2p/gologshim"
 	"github.com/libp2p/go-msgio/pbio"
@@ -781,6 +782,7 @@ func (ids *idService) consumeMessage(mes *pb.Identify, c network.Conn, isPush bo
 
 	// Extend the TTLs on the known (probably) good addresses.
 	// Taking the lock ensures that we don't concurrently process a disconnect.
+	verifhook.AtArg("identify.consumeMessage.beforeLock", c)
 	ids.addrMu.Lock()
 	ttl := peerstore.RecentlyConnectedAddrTTL
 	switch ids.Host.Network().Connectedness(p) {
@@ -1048,6 +1050,7 @@ func (nn *netNotifiee) Disconnected(_ network.Network, c network.Conn) {
 
 	// Last disconnect.
 	// Undo the setting of addresses to peer.ConnectedAddrTTL we did
+	verifhook.AtArg("identify.disconnected.beforeLock", c)
 	ids.addrMu.Lock()
 	defer ids.addrMu.Unlock()
 
